@@ -220,6 +220,7 @@ func init() {
 		rulePushPair(prog, rep, func(fd *ast.FuncDecl) bool { return twinScope(fd) == "C05" }, 5)
 		ruleKindList(prog, rep, func(fd *ast.FuncDecl) bool { return twinScope(fd) == "C05" }, 10)
 		ruleResultAlias(prog, rep, "jp")
+		ruleFullRange(prog, rep, 3, "jp")
 	}
 	rules["C11"] = func(prog *Program, rep *Report) {
 		rep.Explain("C11 decides sibling clauses across evaluators and representations: the cells of Get, FirstFound, Has, GetNodes and FirstNode keep the index-selection fingerprints they share today across containers and across evaluators (e.g. Has and FirstFound select indexes identically for slices). Not covered: correctness of the shared skeleton, reflection lookup semantics, Locate/Walk normalised paths.")
@@ -234,6 +235,7 @@ func init() {
 		ruleNormalizeTwins(prog, rep)                                                              // gen data and simple data reach the operators in the same kinds
 		rulePushPair(prog, rep, func(fd *ast.FuncDecl) bool { return twinScope(fd) != "C13" }, 10) // C11 is stated against Get, so Get's own copies count here too
 		ruleKindList(prog, rep, func(fd *ast.FuncDecl) bool { return twinScope(fd) != "C13" }, 40)
+		ruleFullRange(prog, rep, 3, "jp")
 	}
 	rules["C13"] = func(prog *Program, rep *Report) {
 		rep.Explain("C13 decides sibling clauses of the mutators: the cells of set and modify keep the index-selection fingerprints they share across []any, gen.Array and Indexed (and map, gen.Object, Keyed): bound normalisation, guards such as 0 <= i && i < LEN, loop bounds, and the labelled break that stops the *One forms after the first change. The known divergence of modify/remove from Get on the slice end bound (inclusive) is pinned by jp/remove_test.go and recorded in KNOWN_FINDINGS.txt. Not covered: the frame condition on values, Set's created structure.")
@@ -247,6 +249,7 @@ func init() {
 		ruleAppendRetain(prog, rep, "jp")
 		rulePresenceByNil(prog, rep)
 		ruleIndexLE(prog, rep, "jp")
+		ruleFullRange(prog, rep, 3, "jp")
 	}
 }
 
